@@ -7,7 +7,7 @@
 (* TRUE; a whole maximal run shares one fate; raising the minimum only     *)
 (* removes.  TLC checks these on arrays of <= 15 elements.                 *)
 (***************************************************************************)
-EXTENDS Integers, Sequences, TLAPS
+EXTENDS Integers, Sequences, NaturalsInduction, TLAPS
 
 IsMaxRun(b, lo, hi) == /\ lo \in 1 .. Len(b) /\ hi \in 1 .. Len(b) /\ lo <= hi
                        /\ \A i \in lo .. hi : b[i]
@@ -89,4 +89,96 @@ THEOREM MonotoneInTheMinimum ==
   ASSUME NEW b \in Seq(BOOLEAN), NEW m \in Int, NEW m2 \in Int, m <= m2, NEW i \in 1 .. Len(b), Kept(b, m2, i)
   PROVE  Kept(b, m, i)
 BY DEF Kept
+
+\* ---- monotone in the ARRAY: if every TRUE of a is a TRUE of b, every kept index of a is a kept index of b.  This is what makes "raising a
+\* threshold only removes labels" (C06, C07) and "with unchanged thresholds bursts only grow" (C16) consequences of the per-cycle comparisons:
+\* fewer qualifying cycles -> fewer kept ones.  Needs the EXISTENCE of the maximal run around a stretch of TRUEs (two inductions).
+AllTrue(b, lo, hi) == \A j \in lo .. hi : b[j]
+
+LEMMA ExtendLeft ==
+  ASSUME NEW b \in Seq(BOOLEAN), NEW hi \in 1 .. Len(b)
+  PROVE  \A n \in Nat : \A lo \in 1 .. hi : (lo = n /\ AllTrue(b, lo, hi)) =>
+            \E lo2 \in 1 .. lo : AllTrue(b, lo2, hi) /\ (lo2 = 1 \/ ~b[lo2 - 1])
+<1> DEFINE P(n) == \A lo \in 1 .. hi : (lo = n /\ AllTrue(b, lo, hi)) =>
+                      \E lo2 \in 1 .. lo : AllTrue(b, lo2, hi) /\ (lo2 = 1 \/ ~b[lo2 - 1])
+<1>1. P(0)
+  OBVIOUS
+<1>2. ASSUME NEW n \in Nat, P(n) PROVE P(n + 1)
+  <2> SUFFICES ASSUME NEW lo \in 1 .. hi, lo = n + 1, AllTrue(b, lo, hi)
+               PROVE  \E lo2 \in 1 .. lo : AllTrue(b, lo2, hi) /\ (lo2 = 1 \/ ~b[lo2 - 1])
+    OBVIOUS
+  <2>1. CASE lo = 1
+    BY <2>1
+  <2>2. CASE lo > 1 /\ ~b[lo - 1]
+    BY <2>2
+  <2>3. CASE lo > 1 /\ b[lo - 1]
+    <3>1. (lo - 1) \in 1 .. hi /\ lo - 1 = n
+      BY <2>3
+    <3>2. AllTrue(b, lo - 1, hi)
+      BY <2>3 DEF AllTrue
+    <3>3. PICK lo3 \in 1 .. (lo - 1) : AllTrue(b, lo3, hi) /\ (lo3 = 1 \/ ~b[lo3 - 1])
+      BY <3>1, <3>2, <1>2
+    <3> QED BY <3>3
+  <2> QED BY <2>1, <2>2, <2>3
+<1>3. \A n \in Nat : P(n)
+  <2> HIDE DEF P
+  <2> QED BY <1>1, <1>2, NatInduction
+<1> QED BY <1>3
+
+LEMMA ExtendRight ==
+  ASSUME NEW b \in Seq(BOOLEAN), NEW lo \in 1 .. Len(b)
+  PROVE  \A n \in Nat : \A hi \in lo .. Len(b) : (Len(b) - hi = n /\ AllTrue(b, lo, hi)) =>
+            \E hi2 \in hi .. Len(b) : AllTrue(b, lo, hi2) /\ (hi2 = Len(b) \/ ~b[hi2 + 1])
+<1> DEFINE P(n) == \A hi \in lo .. Len(b) : (Len(b) - hi = n /\ AllTrue(b, lo, hi)) =>
+                      \E hi2 \in hi .. Len(b) : AllTrue(b, lo, hi2) /\ (hi2 = Len(b) \/ ~b[hi2 + 1])
+<1>1. P(0)
+  OBVIOUS
+<1>2. ASSUME NEW n \in Nat, P(n) PROVE P(n + 1)
+  <2> SUFFICES ASSUME NEW hi \in lo .. Len(b), Len(b) - hi = n + 1, AllTrue(b, lo, hi)
+               PROVE  \E hi2 \in hi .. Len(b) : AllTrue(b, lo, hi2) /\ (hi2 = Len(b) \/ ~b[hi2 + 1])
+    OBVIOUS
+  <2>0. hi + 1 \in lo .. Len(b) /\ Len(b) - (hi + 1) = n
+    OBVIOUS
+  <2>1. CASE ~b[hi + 1]
+    BY <2>1
+  <2>2. CASE b[hi + 1]
+    <3>1. AllTrue(b, lo, hi + 1)
+      BY <2>2 DEF AllTrue
+    <3>2. PICK hi3 \in (hi + 1) .. Len(b) : AllTrue(b, lo, hi3) /\ (hi3 = Len(b) \/ ~b[hi3 + 1])
+      BY <2>0, <3>1, <1>2
+    <3> QED BY <3>2
+  <2> QED BY <2>1, <2>2
+<1>3. \A n \in Nat : P(n)
+  <2> HIDE DEF P
+  <2> QED BY <1>1, <1>2, NatInduction
+<1> QED BY <1>3
+
+LEMMA MaxRunAround ==
+  ASSUME NEW b \in Seq(BOOLEAN), NEW lo \in 1 .. Len(b), NEW hi \in 1 .. Len(b), lo <= hi, AllTrue(b, lo, hi)
+  PROVE  \E lo2 \in 1 .. lo, hi2 \in hi .. Len(b) : IsMaxRun(b, lo2, hi2)
+<1>1. PICK lo2 \in 1 .. lo : AllTrue(b, lo2, hi) /\ (lo2 = 1 \/ ~b[lo2 - 1])
+  <2>1. lo \in Nat /\ lo \in 1 .. hi
+    OBVIOUS
+  <2> QED BY <2>1, ExtendLeft
+<1>2. lo2 \in 1 .. Len(b) /\ hi \in lo2 .. Len(b) /\ Len(b) - hi \in Nat
+  OBVIOUS
+<1>3. PICK hi2 \in hi .. Len(b) : AllTrue(b, lo2, hi2) /\ (hi2 = Len(b) \/ ~b[hi2 + 1])
+  BY <1>1, <1>2, ExtendRight
+<1>4. IsMaxRun(b, lo2, hi2)
+  BY <1>1, <1>3 DEF IsMaxRun, AllTrue
+<1> QED BY <1>4
+
+THEOREM MonotoneInTheArray ==
+  ASSUME NEW a \in Seq(BOOLEAN), NEW b \in Seq(BOOLEAN), Len(a) = Len(b), \A j \in 1 .. Len(a) : a[j] => b[j],
+         NEW m \in Int, NEW i \in 1 .. Len(a), Kept(a, m, i)
+  PROVE  Kept(b, m, i)
+<1>1. PICK lo, hi \in 1 .. Len(a) : IsMaxRun(a, lo, hi) /\ lo <= i /\ i <= hi /\ hi - lo + 1 >= m
+  BY DEF Kept
+<1>2. lo \in 1 .. Len(b) /\ hi \in 1 .. Len(b) /\ lo <= hi /\ AllTrue(b, lo, hi)
+  BY <1>1 DEF IsMaxRun, AllTrue
+<1>3. PICK lo2 \in 1 .. lo, hi2 \in hi .. Len(b) : IsMaxRun(b, lo2, hi2)
+  BY <1>2, MaxRunAround
+<1>4. lo2 \in 1 .. Len(b) /\ hi2 \in 1 .. Len(b) /\ lo2 <= i /\ i <= hi2 /\ hi2 - lo2 + 1 >= m
+  BY <1>1, <1>3
+<1> QED BY <1>3, <1>4 DEF Kept
 =============================================================================
